@@ -1305,6 +1305,10 @@ class QuadraticForm(Expression):
         matrix: np.ndarray,
     ) -> None:
         matrix = np.asarray(matrix)
+        if matrix.dtype.kind in "biu":
+            # The coefficients are numbers: integer / boolean containers would make
+            # Q + Q.T (gradient, Hessian) wrap around or turn into a logical OR
+            matrix = matrix.astype(np.float64)
         if matrix.ndim != 2:
             raise WrongDimensionalityError(
                 context="quadratic form",
